@@ -87,8 +87,10 @@ def gen_lazy():
                 label = ''.join('ENRP'[d] for d in digits) or 'none'
                 efirst = (0 in digits and digits.index(0) < n - 1)
                 tier = 'quick' if ((n <= 2 or (n == 3 and 0 not in digits)) and not efirst) else 'thorough'
-                if poison:
-                    tier = 'off'   # error path after symbolic truthiness: > 300 s; to be re-measured
+                if poison or efirst:
+                    # an error that is not the last outcome (or a parse error after symbolic truthiness): the Err value
+                    # travels through the fold accumulator and CBMC explores its drop glue: 350-600 s then memory failure
+                    tier = 'off'
                 grp = 'heavy' if efirst else 'medium'
                 h = 'k_c05_%s_%d_%s' % (op, n, label)
                 out3.append('    //@ob name=C05.%s.%d.%s harness=%s props=C05,C04 tier=%s strength=bounded bound="%d operands; outcome pattern %s (E=evaluation error, N=new value, R=raw value, P=does not parse); truthiness of every value symbolic" fns=op::logic::%s stubs=4 timeout=300 cutdrop=1 group=%s' % (op, n, label, h, tier, n, label, fn, grp))
